@@ -379,6 +379,8 @@ func (r *Report) writeEvidence(dir, prop string, mine []*OblSummary, nobl, disch
 		for _, f := range sortedKeys(c.Flags) {
 			if f == "trusted" {
 				assumptions = append(assumptions, "TRUSTED (contract assumed, body not verified): "+c.Target)
+			} else if strings.HasPrefix(f, "design_panic=") {
+				assumptions = append(assumptions, fmt.Sprintf("ASSUMED, not proved: the safety obligation %s of %s (a panic the function documents for a value that user code computes during the call; no precondition can state it beforehand)", strings.TrimPrefix(f, "design_panic="), c.Target))
 			} else if f != "pure" {
 				assumptions = append(assumptions, fmt.Sprintf("flag %s on %s", f, c.Target))
 			}
